@@ -298,7 +298,7 @@ def dispatch(eng, st, body, callee, args):
         return _o(st, eng.deref_all(st, args[0]))
     if T in NUMERIC_T and Tr == "Default" and meth == "default":
         return _o(st, False if T == "bool" else (eng.flt(0.0) if T in ("Quantity", "f64", "f32") else 0))
-    if T in NUMERIC_T and Tr == "PartialOrd" and meth == "partial_cmp":
+    if T in NUMERIC_T and Tr == "PartialOrd" and meth == "partial_cmp" and not any(_is_nan(x) or _inf_tag(x) for x in num2(eng, st, args)):
         a, b = num2(eng, st, args)
         if is_conc(a) and is_conc(b):
             return _o(st, Enum("Option", 1, [Enum("Ordering", 0 if a < b else (1 if a == b else 2), ())]))
@@ -319,6 +319,13 @@ def dispatch(eng, st, body, callee, args):
             return _o(st, eng.binop(st, CMP[meth], a, b))
     if Tr in ("PartialOrd", "Ord") and meth in ("partial_cmp", "cmp") and len(args) == 2:
         a, b = num2(eng, st, args)
+        if meth == "partial_cmp" and (_is_nan(a) or _is_nan(b)) and (_is_nan(a) or is_scalar(a) or _inf_tag(a)) and (_is_nan(b) or is_scalar(b) or _inf_tag(b)):
+            return _o(st, Enum("Option", 0, ()))  # unordered
+        if (_inf_tag(a) or _inf_tag(b)) and (_inf_tag(a) or is_scalar(a)) and (_inf_tag(b) or is_scalar(b)):
+            # an infinity against a finite value (every symbolic value is finite) or another infinity
+            va, vb = _inf_tag(a), _inf_tag(b)
+            o = Enum("Ordering", 0 if va < vb else (1 if va == vb else 2), ())
+            return _o(st, Enum("Option", 1, [o]) if meth == "partial_cmp" else o)
         if is_scalar(a) and is_scalar(b):
             wrap = (lambda o: Enum("Option", 1, [o])) if meth == "partial_cmp" else (lambda o: o)
             if is_conc(a) and is_conc(b):
@@ -668,6 +675,8 @@ def float_method(eng, st, meth, args, gen):
             return _o(st, math.isnan(a) if meth == "is_nan" else math.isinf(a))
         if isinstance(a, Opaque) and a.tag == "NaN":
             return _o(st, meth == "is_nan")
+        if isinstance(a, Opaque) and a.tag in ("+inf", "-inf"):
+            return _o(st, meth == "is_infinite")
         if meth == "is_infinite" and is_z3(a):
             return _o(st, z3.Or(a == eng.INF, a == -eng.INF))
         return _o(st, False)
@@ -676,6 +685,8 @@ def float_method(eng, st, meth, args, gen):
         if eng.mode == "float":
             import math
             return _o(st, math.isfinite(a))
+        if isinstance(a, Opaque) and a.tag in ("NaN", "+inf", "-inf"):
+            return _o(st, False)
         if is_z3(a):
             return _o(st, z3.And(a != eng.INF, a != -eng.INF))
         return _o(st, True)
